@@ -120,7 +120,7 @@ func c08Instants() [][2]time.Time {
 	return out
 }
 
-var c08Texts = []string{"a", " a<b&c ", "", "é"}
+var c08Texts = []string{"a", " a<b&c ", "", "é", `x]]>y "q" 'r'`, "l1\r\nl2\t"}
 
 // spellings of an XML content type a conformant client may send (media types and parameter names are
 // case-insensitive, charset values too; parameter values may be quoted)
@@ -227,6 +227,9 @@ func c08CompRequests() []caldav.CalendarCompRequest {
 		// components that select no property at all (neither allprop nor prop) at the top and below
 		{Name: "VCALENDAR", Comps: []caldav.CalendarCompRequest{{Name: "VEVENT", Props: []string{"SUMMARY"}}, {Name: "VTIMEZONE"}}},
 		{Name: "VCALENDAR", AllProps: true, AllComps: true, Expand: &caldav.CalendarExpandRequest{Start: s, End: e}},
+		// the bare component: none of its properties, none of its sub-components (alone and with expand)
+		{Name: "VCALENDAR"},
+		{Name: "VCALENDAR", Expand: &caldav.CalendarExpandRequest{Start: s, End: e}},
 	}
 }
 
